@@ -12,18 +12,12 @@ from .. import sbeppc
 MODULE = 'Sbepp.Properties.C16'
 P = 'Sbepp.Properties.C16.'
 THEOREMS = [P + t for t in (
-    # has_value / construction
-    'has_value_full_false', 'has_value_partial', 'default_holds_null',
-    'default_is_null_full_false', 'default_is_null_partial', 'default_is_null_int',
-    'required_default_is_zero',
-    # comparison rules, both implementations
-    'cmp_rules_full_false', 'cmp_rules_numeric_null_full_false',
-    'cmp_rules_ops_partial', 'cmp_rules_spaceship_partial', 'cmp_rules_int',
-    'spaceship_float_ordering_ill_formed',
-    'spaceship_agrees_with_operators_full_false', 'spaceship_agrees_with_operators_partial',
+    # has_value / construction (full strength, NaN nulls included)
+    'has_value_spec', 'to_bool_is_has_value', 'default_is_null', 'required_default_is_zero',
+    # comparison rules, both implementations, all six relations
+    'spaceship_well_formed', 'cmp_rules', 'spaceship_agrees_with_operators',
     # value_or / in_range / required
-    'value_or_spec_full_false', 'value_or_spec_partial', 'in_range_spec',
-    'required_cmp_rules', 'required_spaceship_agrees',
+    'value_or_spec', 'in_range_spec', 'required_cmp_rules', 'required_spaceship_agrees',
     # default tables (whole extracted tables)
     'tables_extracted', 'tables_shape', 'builtin_types_ok', 'parsed_form_agrees',
     'defaults_match_builtins', 'builtins_match_sbe_table', 'generated_match_sbe_table',
@@ -31,6 +25,8 @@ THEOREMS = [P + t for t in (
 )] + [
     # the bridge between the model's keys and the specification's exact values
     'Sbepp.Lemmas.Optional.denote_rel', 'Sbepp.Lemmas.Optional.float_rel',
+    # the class-level cores of has_value / the operators / operator<=>
+    'Sbepp.Lemmas.Optional.hasC_eq', 'Sbepp.Lemmas.Optional.ops_core', 'Sbepp.Lemmas.Optional.ship_core',
 ]
 
 FIELDS = ['eq', 'ne', 'lt', 'le', 'gt', 'ge', 'has_value_a', 'has_value_b', 'bool_a', 'in_range_a',
@@ -136,7 +132,8 @@ def triples(p, rng, nrand):
 
 
 WITNESSES = [
-    # the witnesses of the kernel-checked refutations in Properties/C16.lean
+    # witnesses of the defects fixed by /repo a1acb43 (NaN null) and b6c076b (operator<=> on float
+    # optionals); they were kernel-checked refutations of the full statements before the fixes
     'opt kind=opt p=f32 impl=ops min=00800000 max=7f7fffff null=7fc00000 a=7fc00000 b=7fc00000',
     'opt kind=opt p=f32 impl=ops min=00800000 max=7f7fffff null=7fc00000 a=7fc00000 b=3f800000',
     'opt kind=opt p=f32 impl=spaceship min=00800000 max=7f7fffff null=00000000 a=3f800000 b=40000000',
